@@ -17,11 +17,15 @@ package main
 // identity, the preprocessors' private iterator.
 
 import (
+	"bytes"
 	"encoding/json"
 	"flag"
 	"fmt"
 	"os"
+	"os/exec"
 	"reflect"
+	"sort"
+	"strings"
 	"sync"
 	"time"
 	"unsafe"
@@ -65,6 +69,7 @@ type scLine struct {
 	ID  int               `json:"id"`
 	Key json.RawMessage   `json:"key"`
 	Out map[string]scfOut `json:"out"`
+	Fs  map[string]string `json:"fs"` // how the file system delivered each rendering (information for reports)
 }
 
 type jmap = map[string]interface{}
@@ -347,22 +352,16 @@ func scenconfigMain(args []string) {
 	cases := fl.String("cases", "", "NDJSON case list generated by TLC (key, desc)")
 	outp := fl.String("out", "", "NDJSON trace to write")
 	texts := fl.String("texts", "", "optional: NDJSON file receiving the rendered texts of every case")
-	workers := fl.Int("workers", 8, "parallel workers")
-	allStyles := fl.Bool("allstyles", false, "render the .yml and .json styles for every case (thorough tier)")
+	workers := fl.Int("workers", 8, "parallel worker processes")
+	allStyles := fl.Bool("allstyles", false, "render every style for every case (thorough tier)")
+	shard := fl.Int("shard", -1, "internal: worker process number")
+	of := fl.Int("of", 1, "internal: number of worker processes")
+	after := fl.Int("after", 0, "internal: skip the cases of this shard up to and including this id")
 	_ = fl.Parse(args)
 	if *cases == "" || *outp == "" {
 		fmt.Fprintln(os.Stderr, "scenconfig: -cases and -out are required")
 		os.Exit(2)
 	}
-	if *allStyles {
-		for i := range scStyles {
-			scStyles[i].every, scStyles[i].phase = 1, 0
-		}
-	}
-	fs := afero.NewMemMapFs()
-	scnimport.Import(fs)
-	pluginconfig.AddHooks()
-
 	f, err := os.Open(*cases)
 	if err != nil {
 		panic(err)
@@ -375,10 +374,34 @@ func scenconfigMain(args []string) {
 		if err := dec.Decode(&c); err != nil {
 			panic(fmt.Sprintf("scenconfig: case %d: %v", len(all)+1, err))
 		}
+		if c.ID == 0 {
+			c.ID = len(all) + 1
+		}
 		all = append(all, c)
 	}
-	// data files the variable sources name (the provider opens them): created once, before the workers start, and
-	// never rewritten (a concurrent rewrite could be read half-written)
+	if *shard >= 0 {
+		scWorker(all, *outp, *texts, *allStyles, *shard, *of, *after)
+		return
+	}
+	scParent(all, args, *outp, *texts, *workers)
+}
+
+// scWorker: one worker PROCESS handles the cases shard, shard+of, ... strictly one after the other -- the real
+// front-ends are used the way pandora uses them (providers are created sequentially), and everything they keep at
+// package level lives as long as it would in a pandora process that reads many scenario files.  Every finished case
+// is written out at once, so that the parent knows which case a dying worker was at.
+func scWorker(all []scCase, outp, texts string, allStyles bool, shard, of, after int) {
+	if allStyles {
+		for i := range scStyles {
+			scStyles[i].every, scStyles[i].phase = 1, 0
+		}
+	}
+	// the file system the front-ends and the providers read from: memory, scenario files served with short reads
+	var fs afero.Fs = scShortFs{afero.NewMemMapFs()}
+	scnimport.Import(fs)
+	pluginconfig.AddHooks()
+	// data files the variable sources name (the provider opens them): one content for every data file, valid JSON
+	// and valid CSV (a substituted token may name the csv file in one case and the json file in another)
 	for _, c := range all {
 		for _, s := range c.Desc.Sources {
 			if len(s.File) != 1 {
@@ -388,48 +411,195 @@ func scenconfigMain(args []string) {
 			if ok, _ := afero.Exists(fs, name); ok {
 				continue
 			}
-			// one content for every data file: valid JSON and valid CSV (a substituted token may name the csv
-			// file in one case and the json file in another)
 			if err := afero.WriteFile(fs, name, []byte("[1, 2, 3]\n"), 0644); err != nil {
 				panic(fmt.Sprintf("scenconfig: cannot create data file %q: %v", name, err))
 			}
 		}
 	}
-	// warm up the lazily compiled decode hooks before going parallel
-	_ = coreconfig.Decode(map[string]interface{}{}, &struct{}{})
-	lines := make([]scLine, len(all))
-	textsOut := make([]map[string]string, len(all))
-	var wg sync.WaitGroup
-	for wk := 0; wk < *workers; wk++ {
-		wg.Add(1)
-		go func(wk int) {
-			defer wg.Done()
-			for i := wk; i < len(all); i += *workers {
-				id := all[i].ID
-				if id == 0 {
-					id = i + 1
-				}
-				lines[i], textsOut[i] = scOne(fs, wk, id, all[i])
-			}
-		}(wk)
+	out, err := os.OpenFile(outp, os.O_CREATE|os.O_WRONLY|os.O_APPEND, 0644)
+	if err != nil {
+		panic(err)
 	}
-	wg.Wait()
-	w := vt.Create(*outp)
-	defer w.Close()
-	for _, ln := range lines {
-		w.Emit(ln)
+	defer out.Close()
+	var tout *os.File
+	if texts != "" {
+		if tout, err = os.OpenFile(texts, os.O_CREATE|os.O_WRONLY|os.O_APPEND, 0644); err != nil {
+			panic(err)
+		}
+		defer tout.Close()
 	}
-	if *texts != "" {
-		tw := vt.Create(*texts)
-		defer tw.Close()
-		for i, t := range textsOut {
-			tw.Emit(map[string]interface{}{"id": lines[i].ID, "texts": t})
+	emit := func(f *os.File, v interface{}) {
+		b, err := json.Marshal(v)
+		if err != nil {
+			panic(err)
+		}
+		if _, err := f.Write(append(b, '\n')); err != nil {
+			panic(err)
+		}
+	}
+	for i := shard; i < len(all); i += of {
+		if all[i].ID <= after {
+			continue
+		}
+		line, rendered := scOne(fs, 0, all[i].ID, all[i])
+		emit(out, line)
+		if tout != nil {
+			emit(tout, map[string]interface{}{"id": line.ID, "texts": rendered})
 		}
 	}
 }
 
+// scParent: starts the worker processes, restarts a worker that died behind the case it died at (the death of the
+// process while the real code handles a valid file is recorded as the outcome of that case), merges by case number.
+func scParent(all []scCase, args []string, outp, texts string, workers int) {
+	if workers < 1 {
+		workers = 1
+	}
+	if workers > len(all) {
+		workers = len(all)
+	}
+	type shardRes struct {
+		lines []scLine
+		texts []json.RawMessage
+	}
+	res := make([]shardRes, workers)
+	var wg sync.WaitGroup
+	for sh := 0; sh < workers; sh++ {
+		wg.Add(1)
+		go func(sh int) {
+			defer wg.Done()
+			so, st := fmt.Sprintf("%s.shard%d", outp, sh), ""
+			os.Remove(so)
+			if texts != "" {
+				st = fmt.Sprintf("%s.shard%d", texts, sh)
+				os.Remove(st)
+			}
+			after, deaths := 0, 0
+			var crashed []scLine
+			for {
+				a := append([]string{"scenconfig"}, args...)
+				a = append(a, "-out", so, "-shard", fmt.Sprint(sh), "-of", fmt.Sprint(workers), "-after", fmt.Sprint(after))
+				if st != "" {
+					a = append(a, "-texts", st)
+				}
+				cmd := exec.Command(os.Args[0], a...)
+				var stderr bytes.Buffer
+				cmd.Stderr = &stderr
+				err := cmd.Run()
+				if err == nil {
+					break
+				}
+				// which case was the worker at?  the first one of its shard (behind `after`) that it did not write out
+				done := map[int]bool{}
+				for _, ln := range scReadLines(so) {
+					done[ln.ID] = true
+				}
+				at := 0
+				for i := sh; i < len(all); i += workers {
+					if all[i].ID > after && !done[all[i].ID] {
+						at = i
+						break
+					}
+				}
+				deaths++
+				if deaths > 25 {
+					fmt.Fprintf(os.Stderr, "scenconfig: worker %d keeps dying: %v\n%s\n", sh, err, scTail(stderr.String(), 3000))
+					os.Exit(3)
+				}
+				msg := "the process died while the front-end handled this case: " + scFirstLine(stderr.String())
+				ln := scLine{ID: all[at].ID, Key: all[at].Key, Out: map[string]scfOut{}, Fs: map[string]string{}}
+				for _, s := range scStyles[:4] {
+					ln.Out[s.name] = scfOut{Err: msg}
+				}
+				crashed = append(crashed, ln)
+				after = all[at].ID
+			}
+			res[sh].lines = append(scReadLines(so), crashed...)
+			os.Remove(so)
+			if st != "" {
+				if b, err := os.ReadFile(st); err == nil {
+					for _, l := range bytes.Split(b, []byte("\n")) {
+						if len(l) > 0 {
+							res[sh].texts = append(res[sh].texts, json.RawMessage(append([]byte{}, l...)))
+						}
+					}
+				}
+				os.Remove(st)
+			}
+		}(sh)
+	}
+	wg.Wait()
+	var lines []scLine
+	for _, r := range res {
+		lines = append(lines, r.lines...)
+	}
+	sort.Slice(lines, func(i, j int) bool { return lines[i].ID < lines[j].ID })
+	w := vt.Create(outp)
+	for _, ln := range lines {
+		w.Emit(ln)
+	}
+	w.Close()
+	if texts != "" {
+		type tl struct {
+			ID    int             `json:"id"`
+			Texts json.RawMessage `json:"texts"`
+		}
+		var ts []tl
+		for _, r := range res {
+			for _, raw := range r.texts {
+				var t tl
+				if err := json.Unmarshal(raw, &t); err != nil {
+					panic(err)
+				}
+				ts = append(ts, t)
+			}
+		}
+		sort.Slice(ts, func(i, j int) bool { return ts[i].ID < ts[j].ID })
+		tw := vt.Create(texts)
+		for _, t := range ts {
+			tw.Emit(t)
+		}
+		tw.Close()
+	}
+}
+
+func scReadLines(path string) []scLine {
+	b, err := os.ReadFile(path)
+	if err != nil {
+		return nil
+	}
+	var out []scLine
+	for _, l := range bytes.Split(b, []byte("\n")) {
+		if len(l) == 0 {
+			continue
+		}
+		var ln scLine
+		if err := json.Unmarshal(l, &ln); err != nil {
+			continue // a line cut short by the death of the worker
+		}
+		out = append(out, ln)
+	}
+	return out
+}
+
+func scFirstLine(s string) string {
+	for _, l := range strings.Split(s, "\n") {
+		if strings.TrimSpace(l) != "" {
+			return scTail(l, 300)
+		}
+	}
+	return "(no message)"
+}
+
+func scTail(s string, n int) string {
+	if len(s) > n {
+		return s[len(s)-n:]
+	}
+	return s
+}
+
 func scOne(fs afero.Fs, wk, id int, c scCase) (scLine, map[string]string) {
-	line := scLine{ID: id, Key: c.Key, Out: map[string]scfOut{}}
+	line := scLine{ID: id, Key: c.Key, Out: map[string]scfOut{}, Fs: map[string]string{}}
 	rendered := map[string]string{}
 	full := map[string]scfOut{}
 	for i, st := range scStyles {
@@ -439,7 +609,10 @@ func scOne(fs afero.Fs, wk, id int, c scCase) (scLine, map[string]string) {
 		// the conveniences rotate with the seed and the case number
 		text := st.render(c.Desc, 7*scSeed()+id)
 		rendered[st.name] = text
-		o := scRun(fs, c.Desc.Kind, fmt.Sprintf("/case%d/%s.%s", wk, st.name, st.ext), text)
+		// the way the file system delivers the bytes rotates over styles, cases and seeds
+		mode := (id + 3*scSeed() + i) % fsModes
+		line.Fs[st.name] = fsModeNames[mode]
+		o := scRun(fs, c.Desc.Kind, fmt.Sprintf("/case%d/fs%d/%s.%s", wk, mode, st.name, st.ext), text)
 		full[st.name] = o
 		line.Out[st.name] = o
 		for _, prev := range scStyles[:i] {
